@@ -685,7 +685,10 @@ def search_databases_with_flat_query(query, databases, **kwargs):
     for db in databases:
         search_iter = db.search(query, **kwargs)
         for score, match, filename in search_iter:
-            md5 = match.md5sum()
+            # md5sum() covers the hashes only: the same hashes sketched at two
+            # scaled values (or num values) are different sketches with
+            # different scores, so they must not shadow each other.
+            md5 = (match.md5sum(), match.minhash.scaled, match.minhash.num)
             if md5 not in found_md5:
                 results.append((score, match, filename))
                 found_md5.add(md5)
@@ -733,7 +736,10 @@ def search_databases_with_abund_query(query, databases, **kwargs):
             query, **kwargs
         )  # could return SearchResult here instead of tuple?
         for score, match, filename in search_iter:
-            md5 = match.md5sum()
+            # md5sum() covers the hashes only: the same hashes sketched at two
+            # scaled values (or num values) are different sketches with
+            # different scores, so they must not shadow each other.
+            md5 = (match.md5sum(), match.minhash.scaled, match.minhash.num)
             if md5 not in found_md5:
                 results.append((score, match, filename))
                 found_md5.add(md5)
